@@ -166,8 +166,44 @@ func (c *Ctx) resolveFuncValue(v ssa.Value, depth int) []*ssa.Function {
 		return dedupFns(out)
 	case *ssa.ChangeType:
 		return c.resolveFuncValue(x.X, depth+1)
+	case *ssa.Call:
+		// the result of a helper of the repository that returns a function (a decorator: `withKey(builder)`)
+		return c.resolveReturnedFuncs(x, 0, depth)
+	case *ssa.Extract:
+		if call, ok := x.Tuple.(*ssa.Call); ok {
+			return c.resolveReturnedFuncs(call, x.Index, depth)
+		}
 	}
 	return nil
+}
+
+func (c *Ctx) resolveReturnedFuncs(call *ssa.Call, idx int, depth int) []*ssa.Function {
+	callee := staticCallee(call)
+	if callee == nil || !inRepo(fnPkgPath(callee)) || len(callee.Blocks) == 0 {
+		return nil
+	}
+	var out []*ssa.Function
+	n := 0
+	for _, b := range callee.Blocks {
+		ret, ok := b.Instrs[len(b.Instrs)-1].(*ssa.Return)
+		if !ok || idx >= len(ret.Results) {
+			continue
+		}
+		n++
+		v := ret.Results[idx]
+		if isNilConst(v) {
+			continue // error paths return no function
+		}
+		r := c.resolveFuncValue(v, depth+1)
+		if r == nil {
+			return nil
+		}
+		out = append(out, r...)
+	}
+	if n == 0 || len(out) == 0 {
+		return nil
+	}
+	return dedupFns(out)
 }
 
 func dedupFns(in []*ssa.Function) []*ssa.Function {
